@@ -48,7 +48,7 @@ def cover_sets(ctx, scope, rot):
     res = ctx.tlc_expect_ok(['system'], 'ConfigCover.tla', 'Cover_gen.cfg', workers=2, timeout=900,
                             extra_files={'Cover_gen.cfg': cfg})
     out = {}
-    for name in ('quick', 'cover', 'full', 'boundary_quick', 'boundary_all'):
+    for name in ('quick', 'cover', 'full', 'boundary_quick', 'boundary_all', 'sharedcu_quick', 'sharedcu_all'):
         path = os.path.join(res.dir, name + '.ndjson')
         if not os.path.exists(path):
             raise vlib.Infra('ConfigCover did not export %s' % name)
